@@ -1326,8 +1326,133 @@ func runPOPGUARD(c *Ctx) {
 		}
 		return false
 	}
+	// exhaustedKind: which of the two it is — 1: position not below the node's key count, 2: position not above 0 —
+	// with the position read and the node measured
+	exhaustedKind := func(f ir.Fact) (int, *ssa.UnOp, string) {
+		if !exhausted(f) {
+			return 0, nil, ""
+		}
+		bin := f.Cond.(*ssa.BinOp)
+		for _, side := range [][2]ssa.Value{{bin.X, bin.Y}, {bin.Y, bin.X}} {
+			li, _, ok := liPlusK(side[0])
+			if !ok {
+				continue
+			}
+			if nd, _, ok := lenOfNodeSlice(side[1]); ok {
+				return 1, li, nd
+			}
+			return 2, li, ""
+		}
+		return 0, nil, ""
+	}
+	// stopParam: the fact is the negative answer of a stop condition handed to fn as a parameter
+	// (`ascendUntil(accept func(*pathEntry) bool)`: `if accept(&c.path[len(c.path)-1])` not taken): the index of
+	// that parameter, else -1. What the answer means is decided at every call of fn, on the function handed in.
+	stopParam := func(fn *ssa.Function, f ir.Fact) int {
+		call, ok := f.Cond.(*ssa.Call)
+		if !ok || f.Truth || call.Call.IsInvoke() || len(call.Call.Args) != 1 {
+			return -1
+		}
+		prm, ok := ir.ResolveCell(call.Call.Value).(*ssa.Parameter)
+		if !ok || prm.Parent() != fn {
+			return -1
+		}
+		ia, ok := call.Call.Args[0].(*ssa.IndexAddr)
+		if !ok || !ir.IsPtrToNamed(ia.Type(), pathNames(P).typ) {
+			return -1
+		}
+		if ld, ok := ia.X.(*ssa.UnOp); !ok || ld.Op != token.MUL || !isCursorPath(ld.X) {
+			return -1
+		}
+		// … about the entry the pop has just exposed: path[len(path)-1]
+		ib, ok := ir.ResolveCell(ia.Index).(*ssa.BinOp)
+		if !ok || ib.Op != token.SUB || !isLenCall(ib.X) {
+			return -1
+		}
+		if k, isK := ir.ConstInt(ib.Y); !isK || k != 1 {
+			return -1
+		}
+		if lc, ok := ir.ResolveCell(ib.X).(*ssa.Call); !ok || len(lc.Call.Args) != 1 {
+			return -1
+		} else if ld, ok := lc.Call.Args[0].(*ssa.UnOp); !ok || ld.Op != token.MUL || !isCursorPath(ld.X) {
+			return -1
+		}
+		return paramIndex(prm)
+	}
+	// stopFuncExhausts: v is a function of the package (a closure, a named function) of one path entry whose answer
+	// false means that entry's node has no key left, in the given direction: every return yields the constant true,
+	// or the constant false where the test has failed, or the test itself.
+	stopFuncExhausts := func(v ssa.Value, kind int) bool {
+		var g *ssa.Function
+		switch x := ir.ResolveCell(ir.Strip(v)).(type) {
+		case *ssa.MakeClosure:
+			g, _ = x.Fn.(*ssa.Function)
+		case *ssa.Function:
+			g = x
+		}
+		if g == nil || g.Blocks == nil || g.Pkg == nil || g.Pkg.Pkg.Path() != ir.MastPath || len(g.Params) != 1 || g.Signature.Results().Len() != 1 {
+			return false
+		}
+		about := func(f ir.Fact) bool {
+			k, li, nd := exhaustedKind(f)
+			if k != kind {
+				return false
+			}
+			fa, ok := li.X.(*ssa.FieldAddr)
+			if !ok || ir.ResolveCell(fa.X) != ssa.Value(g.Params[0]) {
+				return false
+			}
+			return k != 1 || strings.Contains(nd, ir.Sym(g.Params[0])+".") // the node measured is that entry's
+		}
+		rets := ir.Returns(g)
+		for _, r := range rets {
+			res := ir.ResolveCell(r.Results[0])
+			if b, isK := ir.ConstBool(res); isK {
+				if !b && !ir.FlowFact(r, about, func(ssa.Instruction) bool { return false }) {
+					return false
+				}
+				continue
+			}
+			if _, isBin := res.(*ssa.BinOp); !isBin || !about(ir.Fact{Cond: res, Truth: false}) {
+				return false
+			}
+		}
+		return len(rets) > 0
+	}
+	type popJob struct{ entry, fn *ssa.Function }
+	var jobs []popJob
+	inRegion := map[*ssa.Function]bool{}
 	for _, entry := range c.Entries("(*Cursor).Forward", "(*Cursor).Backward") {
 		for _, fn := range regionOf(c, entry) {
+			jobs = append(jobs, popJob{entry, fn})
+			inRegion[fn] = true
+		}
+	}
+	// a private helper shared by the two steps (called from both, so in neither's region) belongs to their joint
+	// region: each pop in it is one obligation per call of the helper
+	shared := map[*ssa.Function]bool{}
+	for changed := true; changed; {
+		changed = false
+		for _, fn := range P.Funcs {
+			if inRegion[fn] || !privateHelper(c, fn) {
+				continue
+			}
+			all := true
+			for _, cs := range P.Callers[fn] {
+				if _, isCall := cs.(*ssa.Call); !isCall || !inRegion[ir.Outermost(cs.Parent())] {
+					all = false
+				}
+			}
+			if all {
+				inRegion[fn], shared[fn], changed = true, true, true
+				jobs = append(jobs, popJob{nil, fn})
+			}
+		}
+	}
+	for _, job := range jobs {
+		entry := job.entry
+		{
+			fn := job.fn
 			if popFns[fn] {
 				continue
 			}
@@ -1351,16 +1476,49 @@ func runPOPGUARD(c *Ctx) {
 						// the pop loop extracted into a helper of the region: the test made before the call counts for the
 						// first pass — the fact holds at the helper's entry if it holds at every call of the helper
 						first := fn.Blocks[0].Instrs[0]
-						inside := ir.FlowFactGen(ins, exhausted, func(i ssa.Instruction) bool { return i == first }, func(ssa.Instruction) bool { return false })
+						stops := map[int]bool{} // stop conditions handed in whose negative answer the later passes rely on
+						inside := ir.FlowFactGen(ins, func(f ir.Fact) bool {
+							if exhausted(f) {
+								return true
+							}
+							if j := stopParam(fn, f); j >= 0 {
+								stops[j] = true
+								return true
+							}
+							return false
+						}, func(i ssa.Instruction) bool { return i == first }, func(ssa.Instruction) bool { return false })
 						atCalls := len(P.Callers[fn]) > 0
 						for _, cs := range P.Callers[fn] {
-							if !ir.FlowFact(cs, exhausted, func(ssa.Instruction) bool { return false }) {
+							if len(stops) == 0 {
+								if !ir.FlowFact(cs, exhausted, func(ssa.Instruction) bool { return false }) {
+									atCalls = false
+								}
+								continue
+							}
+							// the test made before the call and the stop condition handed in look the same way
+							okCall := false
+							for _, kind := range []int{1, 2} {
+								ok := ir.FlowFact(cs, func(f ir.Fact) bool { k, _, _ := exhaustedKind(f); return k == kind }, func(ssa.Instruction) bool { return false })
+								for j := range stops {
+									if args := cs.Common().Args; j >= len(args) || !stopFuncExhausts(args[j], kind) {
+										ok = false
+									}
+								}
+								if ok {
+									okCall = true
+								}
+							}
+							if !okCall {
 								atCalls = false
 							}
 						}
 						held = inside && atCalls
 					}
-					if held {
+					if held && shared[fn] {
+						for _, cs := range P.Callers[fn] {
+							c.OK(pos, what+", called from "+ir.FuncName(ir.Outermost(cs.Parent())), "every path to it has just found the entry's node without a key left in the direction of travel", false)
+						}
+					} else if held {
 						c.OK(pos, what, "every path to it has just found the entry's node without a key left in the direction of travel", false)
 					} else {
 						c.Violation(fn, pos, "path entry dropped although its node may still have keys to visit",
